@@ -17,6 +17,8 @@ type IndexLoop struct {
 	HiOff  int
 	Desc   bool
 	Body   map[*ssa.BasicBlock]bool
+	Stay   *ssa.BasicBlock // successor taken while the loop condition holds
+	Exit   *ssa.BasicBlock // successor taken when it fails
 	Shape  string
 }
 
@@ -78,18 +80,25 @@ func IndexLoops(fn *ssa.Function) []*IndexLoop {
 			if !ok {
 				break
 			}
-			if len(phi.Edges) != 2 {
+			if len(phi.Edges) < 2 {
 				continue
 			}
 			var init, step ssa.Value
+			shape := true
 			for i, e := range phi.Edges {
 				if h.Dominates(h.Preds[i]) {
+					if step != nil && step != e {
+						shape = false
+					}
 					step = e
 				} else {
+					if init != nil && init != e {
+						shape = false
+					}
 					init = e
 				}
 			}
-			if init == nil || step == nil {
+			if init == nil || step == nil || !shape {
 				continue
 			}
 			sb, ok := step.(*ssa.BinOp)
@@ -126,6 +135,11 @@ func IndexLoops(fn *ssa.Function) []*IndexLoop {
 				}
 				cond = bin
 				condTruthStay = stay0 != neg
+				if stay0 {
+					l.Stay, l.Exit = b.Succs[0], b.Succs[1]
+				} else {
+					l.Stay, l.Exit = b.Succs[1], b.Succs[0]
+				}
 				break
 			}
 			if cond == nil {
@@ -221,7 +235,7 @@ func IndexLoops(fn *ssa.Function) []*IndexLoop {
 // CallsInLoop lists call instructions inside the loop body.
 func (l *IndexLoop) Calls() []ssa.CallInstruction {
 	var out []ssa.CallInstruction
-	for b := range l.Body {
+	for b := range l.Region() {
 		for _, in := range b.Instrs {
 			if c, ok := in.(ssa.CallInstruction); ok {
 				out = append(out, c)
